@@ -86,6 +86,12 @@ where
     let mut accum = ProcessAccumulator::new();
     loader.borrow().load(|path, pctx, entry| {
         accum.process(ctx, entry).map_err(|berr| {
+            #[cfg(okane_verif)]
+            crate::verif::emit(|| {
+                let d = format!("{:?}", berr);
+                let kind: String = d.chars().take_while(|c| c.is_alphanumeric()).collect();
+                format!("{{\"ev\":\"reject\",\"kind\":{:?}}}", kind)
+            });
             ReportError::BookKeep(
                 berr,
                 error::ErrorContext::new(
@@ -96,6 +102,8 @@ where
             )
         })
     })?;
+    #[cfg(okane_verif)]
+    crate::verif::emit(|| "{\"ev\":\"done\"}".to_string());
     if let Some(price_db_path) = options.price_db_path.as_deref() {
         accum.price_repos.load_price_db(ctx, price_db_path)?;
     }
@@ -148,6 +156,10 @@ impl<'ctx> ProcessAccumulator<'ctx> {
                             .map_err(BookKeepError::InvalidAccount)?;
                     }
                 }
+                #[cfg(okane_verif)]
+                crate::verif::emit(|| {
+                    format!("{{\"ev\":\"decl\",\"what\":\"acct\",\"name\":{:?}}}", canonical.as_str())
+                });
                 Ok(())
             }
             syntax::LedgerEntry::Commodity(commodity) => {
@@ -169,6 +181,10 @@ impl<'ctx> ProcessAccumulator<'ctx> {
                         _ => {}
                     }
                 }
+                #[cfg(okane_verif)]
+                crate::verif::emit(|| {
+                    format!("{{\"ev\":\"decl\",\"what\":\"cmdt\",\"name\":{:?}}}", canonical.as_str())
+                });
                 Ok(())
             }
             _ => Ok(()),
@@ -184,6 +200,8 @@ fn add_transaction<'ctx>(
 ) -> Result<Transaction<'ctx>, BookKeepError> {
     // First, process all postings, except the one without balance and amount,
     // which must be deduced later. And that should appear at most once.
+    #[cfg(okane_verif)]
+    crate::verif::emit(|| format!("{{\"ev\":\"txn\",\"date\":\"{}\",\"n\":{}}}", txn.date, txn.posts.len()));
     let mut postings = bcc::Vec::with_capacity_in(txn.posts.len(), ctx.arena);
     let mut unfilled: Option<Tracked<usize>> = None;
     let mut balance = Amount::default();
@@ -214,10 +232,37 @@ fn add_transaction<'ctx>(
                 }
             }
         };
+        #[cfg(okane_verif)]
+        let verif_price = price_event.as_ref().map(|e| {
+            format!(
+                "{{\"x\":{},\"y\":{}}}",
+                crate::verif::single_json(&e.price_x),
+                crate::verif::single_json(&e.price_y)
+            )
+        });
         if let Some(event) = price_event {
             price_repos.insert_price(PriceSource::Ledger, event);
         }
         balance += evaluated.balance_delta;
+        #[cfg(okane_verif)]
+        crate::verif::emit(|| {
+            let kind = match (&posting.amount, &posting.balance) {
+                (None, None) => "omit",
+                (None, Some(_)) => "assign",
+                _ => "reg",
+            };
+            format!(
+                "{{\"ev\":\"post\",\"i\":{},\"kind\":\"{}\",\"acct\":{:?},\"amt\":{},\"bv\":{},\"bal_after\":{},\"residual\":{},\"price\":{}}}",
+                i + 1,
+                kind,
+                account.as_str(),
+                crate::verif::amount_json(&Amount::from(evaluated.amount)),
+                crate::verif::amount_json(&Amount::from(evaluated.balance_delta)),
+                bal.get(&account).map(crate::verif::amount_json).unwrap_or_else(|| "[]".to_string()),
+                crate::verif::amount_json(&balance),
+                verif_price.clone().unwrap_or_else(|| "null".to_string()),
+            )
+        });
         postings.push(Posting {
             account,
             amount: evaluated.amount.into(),
@@ -230,6 +275,16 @@ fn add_transaction<'ctx>(
         let deduced: Amount = balance.negate();
         postings[u].amount = deduced.clone();
         bal.add_amount(postings[u].account, deduced);
+        #[cfg(okane_verif)]
+        crate::verif::emit(|| {
+            format!(
+                "{{\"ev\":\"commit\",\"decision\":\"deduce\",\"i\":{},\"acct\":{:?},\"deduced\":{},\"bal_after\":{}}}",
+                u + 1,
+                postings[u].account.as_str(),
+                crate::verif::amount_json(&postings[u].amount),
+                bal.get(&postings[u].account).map(crate::verif::amount_json).unwrap_or_else(|| "[]".to_string()),
+            )
+        });
     } else {
         check_balance(ctx, price_repos, &mut postings, txn.date, balance)?;
     }
@@ -465,6 +520,10 @@ fn check_balance<'ctx>(
     );
     let balance = balance.round(ctx);
     if balance.is_zero() {
+        #[cfg(okane_verif)]
+        crate::verif::emit(|| {
+            format!("{{\"ev\":\"commit\",\"decision\":\"balanced\",\"rounded\":{}}}", crate::verif::amount_json(&balance))
+        });
         return Ok(());
     }
     // Implied exchange needs two non-zero amounts with opposite signs,
@@ -503,6 +562,15 @@ fn check_balance<'ctx>(
                 price_y: a2.abs(),
             },
         );
+        #[cfg(okane_verif)]
+        crate::verif::emit(|| {
+            format!(
+                "{{\"ev\":\"commit\",\"decision\":\"implied\",\"rounded\":{},\"price\":{{\"x\":{},\"y\":{}}}}}",
+                crate::verif::amount_json(&balance),
+                crate::verif::single_json(&a1.abs()),
+                crate::verif::single_json(&a2.abs())
+            )
+        });
         return Ok(());
     }
     if !balance.is_zero() {
